@@ -121,9 +121,9 @@ def run_check(tier, seed, replay=None):
         "exhaustive": False,
     }
     write_evidence("C21", tier, seed, "exploration", coverage, wall, len(report.violations), [
-        "usage protocol: paths are files; an edge's target has been registered (as PackageBuilder::register does); "
-        "the new name of a rename is not currently a node",
-        "concurrent callers only add nodes, add edges, sort and query; removals and renames happen in the single-caller set-up prefix",
-        "a sort on a graph with an edge to an unregistered path is expected to fail and leave the graph unchanged",
+        "usage protocol: paths are files; the new name of a rename differs from the old one and is not currently a node; "
+        "an edge's target has usually been registered (as PackageBuilder::register does) - in 15 % of single-caller inc_refs it has not",
+        "the reference graph mirrors dangling edges (an edge to an unregistered path): queries stop at them, sort fails and leaves the graph unchanged",
+        "concurrent callers add nodes and edges, remove nodes, rename onto never-used names, sort and query",
     ])
     return report.finish()
